@@ -1,8 +1,873 @@
-(* C25 — proofs *)
+(* C25 — proofs: a refinement invariant tying the buffer's state to the specification-level ghosts
+   (sink view, upstream view of the latest connection, upserts sent since the last restart, ill-formed
+   deletions), preserved by every operation; the property theorems are corollaries. *)
 From Coq Require Import List NArith Bool Lia.
 From Verif.C25 Require Import Model Spec.
 Import ListNotations.
 Open Scope N_scope.
 
-Lemma restart_clears_queue : forall st, q (on_restart st) = [] /\ ns (on_restart st) = Some (live st).
-Proof. intros; split; reflexivity. Qed.
+(* ------------------------------------------------------------------ helpers on key sets *)
+Lemma mem_In : forall k l, mem k l = true <-> In k l.
+Proof.
+  intros k l. unfold mem. rewrite existsb_exists. split.
+  - intros [x [Hx He]]. apply N.eqb_eq in He. subst. exact Hx.
+  - intros H. exists k. split; [exact H | apply N.eqb_refl].
+Qed.
+
+Lemma mem_false : forall k l, mem k l = false <-> ~ In k l.
+Proof.
+  intros k l. rewrite <- mem_In. destruct (mem k l); split; intros; congruence.
+Qed.
+
+Lemma In_discard : forall x k l, In x (discard k l) <-> In x l /\ x <> k.
+Proof.
+  intros. unfold discard. rewrite filter_In. rewrite negb_true_iff, N.eqb_neq. tauto.
+Qed.
+
+Lemma NoDup_filter' : forall (A : Type) (f : A -> bool) l, NoDup l -> NoDup (filter f l).
+Proof.
+  induction l; simpl; intros H; [constructor|]. inversion H; subst.
+  destruct (f a); auto. constructor; auto. rewrite filter_In. tauto.
+Qed.
+
+Lemma In_add : forall x k l, In x (add k l) <-> x = k \/ In x l.
+Proof.
+  intros. unfold add. destruct (mem k l) eqn:E.
+  - apply mem_In in E. split; [tauto|]. intros [->|]; auto.
+  - simpl. split; intros [|]; auto.
+Qed.
+
+Lemma In_dedup : forall x l, In x (dedup l) <-> In x l.
+Proof.
+  induction l; simpl; [tauto|]. rewrite In_discard, IHl.
+  destruct (N.eq_dec a x); [subst; tauto|]. split; [tauto|]. intros [|]; [tauto|]. right; split; congruence.
+Qed.
+
+Lemma NoDup_dedup : forall l, NoDup (dedup l).
+Proof.
+  induction l; simpl; constructor.
+  - rewrite In_discard. tauto.
+  - apply NoDup_filter'. exact IHl.
+Qed.
+
+Lemma In_order : forall x ord l, In x (order ord l) <-> In x l.
+Proof.
+  intros. unfold order. rewrite In_dedup, in_app_iff, filter_In, mem_In. tauto.
+Qed.
+
+(* ------------------------------------------------------------------ keys of the queue *)
+Definition qkeys (l : list item) : list key := flat_map keys_of_item l.
+
+Lemma qkeys_app : forall a b, qkeys (a ++ b) = qkeys a ++ qkeys b.
+Proof. intros. unfold qkeys. apply flat_map_app. Qed.
+
+Lemma In_qkeys : forall k l, In k (qkeys l) <-> exists u, In (IUpd u) l /\ u_key u = k.
+Proof.
+  intros. unfold qkeys. rewrite in_flat_map. split.
+  - intros [[u|s] [Hi Hk]]; simpl in Hk; [|tauto]. destruct Hk as [<-|[]]. eauto.
+  - intros [u [Hi <-]]. exists (IUpd u). simpl; auto.
+Qed.
+
+Lemma qkeys_filter : forall k l,
+  qkeys (filter (fun it => negb (item_has_key k it)) l) = discard k (qkeys l).
+Proof.
+  induction l as [|[u|s] l IH]; simpl; auto.
+  destruct (N.eqb (u_key u) k) eqn:E; simpl; [exact IH | f_equal; exact IH].
+Qed.
+
+Lemma qkeys_map : forall k u l, u_key u = k ->
+  qkeys (map (fun it => if item_has_key k it then IUpd u else it) l) = qkeys l.
+Proof.
+  intros k u l Hk. induction l as [|[u'|s] l IH]; simpl; auto.
+  destruct (N.eqb (u_key u') k) eqn:E; simpl; rewrite IH; [|reflexivity].
+  apply N.eqb_eq in E. congruence.
+Qed.
+
+Lemma In_map_replace : forall k u l u',
+  In (IUpd u') (map (fun it => if item_has_key k it then IUpd u else it) l) ->
+  (u' = u /\ In k (qkeys l)) \/ (In (IUpd u') l /\ u_key u' <> k).
+Proof.
+  induction l as [|[u0|s] l IH]; simpl; intros u' H; [tauto| |].
+  - destruct H as [H|H].
+    + destruct (N.eqb (u_key u0) k) eqn:E.
+      * inversion H; subst. apply N.eqb_eq in E. left; auto.
+      * inversion H; subst. apply N.eqb_neq in E. right; auto.
+    + destruct (IH _ H) as [[? ?]|[? ?]]; [left|right]; auto.
+  - destruct H as [H|H]; [discriminate|]. destruct (IH _ H) as [[? ?]|[? ?]]; [left|right]; auto.
+Qed.
+
+Lemma In_filter_key : forall k l u',
+  In (IUpd u') (filter (fun it => negb (item_has_key k it)) l) <-> In (IUpd u') l /\ u_key u' <> k.
+Proof.
+  intros. rewrite filter_In. simpl. rewrite negb_true_iff, N.eqb_neq. tauto.
+Qed.
+
+Lemma NoDup_qkeys_head : forall u r, NoDup (qkeys (IUpd u :: r)) ->
+  ~ In (u_key u) (qkeys r) /\ NoDup (qkeys r).
+Proof. simpl. intros u r H. inversion H; auto. Qed.
+
+(* ------------------------------------------------------------------ position of in-sync in the queue *)
+Definition good (snt : list (key * val)) (sv : view) (k : key) : Prop :=
+  match sv k with None => True | Some v => In (k, v) snt end.
+
+(* every InSync status in the queue has, for every key, either a queued update ahead of it or nothing stale *)
+Fixpoint Hq (P : key -> Prop) (seen : list key) (l : list item) : Prop :=
+  match l with
+  | [] => True
+  | IUpd u :: r => Hq P (u_key u :: seen) r
+  | IStatus s :: r => (s = InSync -> forall k, In k seen \/ P k) /\ Hq P seen r
+  end.
+
+Lemma Hq_mono : forall (P P' : key -> Prop) l seen seen',
+  (forall j, In j seen \/ P j -> In j seen' \/ P' j) -> Hq P seen l -> Hq P' seen' l.
+Proof.
+  induction l as [|[u|s] l IH]; simpl; intros seen seen' Hm H; auto.
+  - eapply IH; [|exact H]. simpl. intros j [[Hj|Hj]|Hj].
+    + left; left; exact Hj.
+    + destruct (Hm j (or_introl Hj)) as [H0|H0]; [left; right; exact H0 | right; exact H0].
+    + destruct (Hm j (or_intror Hj)) as [H0|H0]; [left; right; exact H0 | right; exact H0].
+  - destruct H as [H1 H2]. split; [|eapply IH; eauto]. intros Hs k. apply Hm. auto.
+Qed.
+
+Lemma Hq_map : forall P k u l seen, u_key u = k ->
+  Hq P seen l -> Hq P seen (map (fun it => if item_has_key k it then IUpd u else it) l).
+Proof.
+  intros P k u l. induction l as [|[u0|s] l IH]; simpl; intros seen Hk H; auto.
+  - destruct (N.eqb (u_key u0) k) eqn:E; simpl.
+    + apply N.eqb_eq in E. replace (u_key u) with (u_key u0) by congruence. apply IH; auto.
+    + apply IH; auto.
+  - destruct H; split; auto.
+Qed.
+
+Lemma Hq_filter : forall (P : key -> Prop) k l seen, P k ->
+  Hq P seen l -> Hq P seen (filter (fun it => negb (item_has_key k it)) l).
+Proof.
+  intros P k l. induction l as [|[u0|s] l IH]; simpl; intros seen Hk H; auto.
+  - destruct (N.eqb (u_key u0) k) eqn:E; simpl.
+    + apply N.eqb_eq in E. apply IH; auto. eapply Hq_mono; [|exact H].
+      simpl. intros j [[<-|Hj]|Hj]; auto. rewrite E. auto.
+    + auto.
+  - destruct H; split; auto.
+Qed.
+
+Lemma Hq_snoc_upd : forall P u l seen, Hq P seen l -> Hq P seen (l ++ [IUpd u]).
+Proof.
+  intros P u l. induction l as [|[u0|s] l IH]; simpl; intros seen H; auto.
+  destruct H; split; auto.
+Qed.
+
+Lemma Hq_push_status : forall P s l seen,
+  Hq P seen l -> (s = InSync -> forall k, In k (qkeys l ++ seen) \/ P k) -> Hq P seen (push_status s l).
+Proof.
+  intros P s l. induction l as [|it l IH]; intros seen H Hs.
+  - simpl. split; auto.
+  - destruct it as [u|s0].
+    + change (push_status s (IUpd u :: l)) with (IUpd u :: push_status s l).
+      simpl. apply IH; [exact H|]. intros E k. specialize (Hs E k). simpl in Hs.
+      rewrite in_app_iff in *. simpl. tauto.
+    + destruct l as [|it' l'].
+      * simpl. split; auto.
+      * change (push_status s (IStatus s0 :: it' :: l')) with (IStatus s0 :: push_status s (it' :: l')).
+        destruct H as [H1 H2]. split; [exact H1|]. apply IH; [exact H2|]. exact Hs.
+Qed.
+
+Lemma qkeys_push_status : forall s l, qkeys (push_status s l) = qkeys l.
+Proof.
+  intros s l. induction l as [|it l IH]; [reflexivity|].
+  destruct it as [u|s0].
+  - change (push_status s (IUpd u :: l)) with (IUpd u :: push_status s l). simpl. rewrite IH. reflexivity.
+  - destruct l as [|it' l']; [reflexivity|].
+    change (push_status s (IStatus s0 :: it' :: l')) with (IStatus s0 :: push_status s (it' :: l')).
+    simpl. simpl in IH. rewrite IH. reflexivity.
+Qed.
+
+Lemma In_push_status : forall s u l, In (IUpd u) (push_status s l) <-> In (IUpd u) l.
+Proof.
+  intros s u l. induction l as [|it l IH]; [simpl; split; [intros [H|[]]; discriminate | tauto]|].
+  destruct it as [u0|s0].
+  - change (push_status s (IUpd u0 :: l)) with (IUpd u0 :: push_status s l). simpl. rewrite IH. tauto.
+  - destruct l as [|it' l'].
+    + simpl. split; intros [H|[]]; discriminate.
+    + change (push_status s (IStatus s0 :: it' :: l')) with (IStatus s0 :: push_status s (it' :: l')).
+      simpl. simpl in IH. rewrite IH. tauto.
+Qed.
+
+(* ------------------------------------------------------------------ the refinement invariant *)
+Record Inv (st : state) (sv uv : view) (snt : list (key * val)) (il : list key) : Prop := {
+  (* keyToPendingUpdate is exactly the set of keys with an update in the queue, one per key *)
+  iA1 : NoDup (qkeys (q st));
+  iA2 : forall k, mem k (pend st) = true <-> In k (qkeys (q st));
+  (* liveResourceKeys = the keys the sink holds *)
+  iB : forall k, mem k (live st) = true <-> sv k <> None;
+  (* a queued update carries the latest value the current connection sent for its key *)
+  iC : forall u, In (IUpd u) (q st) -> u_val u = uv (u_key u);
+  (* a key with nothing queued is already right at the sink, or is still waiting for the resync verdict *)
+  iD : forall k, ~ In k (qkeys (q st)) -> sv k = uv k \/ exists l, ns st = Some l /\ In k l;
+  iE : forall l k, ns st = Some l -> In k l ->
+       mem k (live st) = true /\ ~ In k (qkeys (q st)) /\ uv k = None;
+  (* update types of queued upserts match the sink; queued deletions are for held keys *)
+  iF : forall u v, In (IUpd u) (q st) -> u_val u = Some v ->
+       u_type u = if mem (u_key u) (live st) then UTUpdated else UTNew;
+  iG : forall u, In (IUpd u) (q st) -> u_val u = None ->
+       mem (u_key u) (live st) = true \/ In (u_key u) il;
+  iH : Hq (good snt sv) [] (q st);
+  iI : forall k v, uv k = Some v -> In (k, v) snt
+}.
+
+Lemma inv_init : Inv init vempty vempty [] [].
+Proof.
+  constructor; simpl.
+  - constructor.
+  - intros k; split; [discriminate | tauto].
+  - intros k. unfold vempty. split; [discriminate | congruence].
+  - tauto.
+  - intros; left; reflexivity.
+  - intros; discriminate.
+  - tauto.
+  - tauto.
+  - exact Logic.I.
+  - unfold vempty; intros; discriminate.
+Qed.
+
+Lemma retype_key : forall lv u, u_key (retype lv u) = u_key u.
+Proof. intros. unfold retype. destruct (u_val u); reflexivity. Qed.
+Lemma retype_val : forall lv u, u_val (retype lv u) = u_val u.
+Proof. intros. unfold retype. destruct (u_val u) eqn:E; simpl; auto. Qed.
+Lemma retype_type : forall lv u v, u_val u = Some v ->
+  u_type (retype lv u) = if mem (u_key u) lv then UTUpdated else UTNew.
+Proof. intros. unfold retype. rewrite H. reflexivity. Qed.
+
+Lemma NoDup_snoc : forall (A : Type) (l : list A) x, NoDup l -> ~ In x l -> NoDup (l ++ [x]).
+Proof.
+  induction l; simpl; intros x H Hn.
+  - constructor; auto.
+  - inversion H; subst. constructor.
+    + rewrite in_app_iff. simpl. intros [|[|[]]]; [tauto|]. subst. tauto.
+    + apply IHl; tauto.
+Qed.
+
+Lemma good_incl : forall snt snt' sv k, incl snt snt' -> good snt sv k -> good snt' sv k.
+Proof. unfold good. intros. destruct (sv k); auto. Qed.
+
+Lemma Hq_good_incl : forall snt snt' sv l seen, incl snt snt' ->
+  Hq (good snt sv) seen l -> Hq (good snt' sv) seen l.
+Proof.
+  intros. eapply Hq_mono; [|eassumption]. intros j [|]; [left; auto|right; eapply good_incl; eauto].
+Qed.
+
+Lemma vupd_same : forall v k x, vupd v k x k = x.
+Proof. intros. unfold vupd. rewrite N.eqb_refl. reflexivity. Qed.
+Lemma vupd_other : forall v k x j, j <> k -> vupd v k x j = v j.
+Proof. intros. unfold vupd. apply N.eqb_neq in H. rewrite H. reflexivity. Qed.
+
+Lemma inv_on_update1 : forall st sv uv snt il u uv' snt' il',
+  Inv st sv uv snt il ->
+  (forall j, uv' j = vupd uv (u_key u) (u_val u) j) ->
+  incl snt snt' -> (forall v, u_val u = Some v -> In (u_key u, v) snt') ->
+  incl il il' ->
+  (u_val u = None -> mem (u_key u) (live st) = false -> ~ In (u_key u) (qkeys (q st)) -> In (u_key u) il') ->
+  Inv (on_update1 st u) sv uv' snt' il'.
+Proof.
+  intros st sv uv snt il u uv' snt' il' [A1 A2 B C D E F G H I] Huv Hs1 Hs2 Hi1 Hi2.
+  set (k := u_key u) in *.
+  assert (Hsame : uv' k = u_val u) by (rewrite Huv; apply vupd_same).
+  assert (Hoth : forall j, j <> k -> uv' j = uv j) by (intros; rewrite Huv; apply vupd_other; auto).
+  assert (I' : forall j v, uv' j = Some v -> In (j, v) snt').
+  { intros j v Hj. destruct (N.eq_dec j k) as [->|Hne].
+    - apply Hs2. congruence.
+    - apply Hs1. apply I. rewrite <- Hoth; auto. }
+  assert (Hkq : forall u', In (IUpd u') (q st) -> In (u_key u') (qkeys (q st))).
+  { intros u' Hu. apply In_qkeys. eauto. }
+  (* facts about the not-seen set after the discard *)
+  assert (Ens : forall l' j, option_map (discard k) (ns st) = Some l' -> In j l' ->
+            j <> k /\ exists l, ns st = Some l /\ In j l).
+  { intros l' j Hl Hj. destruct (ns st) as [l|] eqn:Hns; simpl in Hl; [|discriminate].
+    inversion Hl; subst. apply In_discard in Hj. destruct Hj. split; eauto. }
+  assert (Dns : forall j, j <> k -> (exists l, ns st = Some l /\ In j l) ->
+            exists l', option_map (discard k) (ns st) = Some l' /\ In j l').
+  { intros j Hne [l [Hl Hj]]. rewrite Hl. simpl. eexists; split; [reflexivity|]. apply In_discard; auto. }
+  unfold on_update1, queue_update. cbn [q pend live ns mrs set_ns].
+  fold k. rewrite retype_val.
+  destruct (mem k (pend st)) eqn:Hp.
+  - assert (Hkin : In k (qkeys (q st))) by (apply A2; exact Hp).
+    destruct (is_none (u_val u) && negb (mem k (live st))) eqn:Hb.
+    + (* deletion of a never-delivered key: drop the queued update *)
+      apply andb_true_iff in Hb. destruct Hb as [Hn Hlv]. apply negb_true_iff in Hlv.
+      assert (Hv : u_val u = None) by (destruct (u_val u); [discriminate|reflexivity]).
+      assert (Hsv : sv k = None).
+      { destruct (sv k) eqn:Es; auto. assert (mem k (live st) = true) by (apply B; congruence). congruence. }
+      constructor; cbn [q pend live ns mrs].
+      * rewrite qkeys_filter. apply NoDup_filter'. exact A1.
+      * intros j. rewrite qkeys_filter, mem_In, !In_discard, <- mem_In, A2. tauto.
+      * exact B.
+      * intros u' Hu. apply In_filter_key in Hu. destruct Hu as [Hu Hne]. rewrite Hoth; auto.
+      * intros j Hj. rewrite qkeys_filter, In_discard in Hj.
+        destruct (N.eq_dec j k) as [->|Hne].
+        { left. congruence. }
+        { destruct (D j) as [Hd|Hd]; [tauto| left; rewrite Hoth; auto | right; apply Dns; auto]. }
+      * intros l' j Hl Hj. destruct (Ens _ _ Hl Hj) as [Hne [l [Hl0 Hj0]]].
+        destruct (E _ _ Hl0 Hj0) as [E1 [E2 E3]]. split; [exact E1|]. split.
+        { rewrite qkeys_filter, In_discard. tauto. }
+        { rewrite Hoth; auto. }
+      * intros u' v Hu. apply In_filter_key in Hu. destruct Hu. eauto.
+      * intros u' Hu Hn'. apply In_filter_key in Hu. destruct Hu as [Hu _].
+        destruct (G _ Hu Hn'); auto.
+      * apply Hq_filter. { unfold good. rewrite Hsv. exact Logic.I. } eapply Hq_good_incl; eauto.
+      * exact I'.
+    + (* swap in the most recent value *)
+      set (u1 := retype (live st) u).
+      assert (K1 : u_key u1 = k) by apply retype_key.
+      constructor; cbn [q pend live ns mrs].
+      * rewrite qkeys_map; auto.
+      * intros j. rewrite qkeys_map; auto.
+      * exact B.
+      * intros u' Hu. apply In_map_replace in Hu. destruct Hu as [[-> _]|[Hu Hne]].
+        { rewrite K1. unfold u1. rewrite retype_val. congruence. }
+        { rewrite Hoth; auto. }
+      * intros j Hj. rewrite qkeys_map in Hj; auto.
+        assert (j <> k) by congruence.
+        destruct (D j Hj) as [Hd|Hd]; [left; rewrite Hoth; auto | right; apply Dns; auto].
+      * intros l' j Hl Hj. destruct (Ens _ _ Hl Hj) as [Hne [l [Hl0 Hj0]]].
+        destruct (E _ _ Hl0 Hj0) as [E1 [E2 E3]]. split; [exact E1|]. split.
+        { rewrite qkeys_map; auto. }
+        { rewrite Hoth; auto. }
+      * intros u' v Hu Hv. apply In_map_replace in Hu. destruct Hu as [[-> _]|[Hu Hne]]; [|eauto].
+        unfold u1 in *. rewrite retype_val in Hv. rewrite retype_key. eapply retype_type; eauto.
+      * intros u' Hu Hn'. apply In_map_replace in Hu. destruct Hu as [[-> _]|[Hu Hne]].
+        { unfold u1 in *. rewrite retype_val in Hn'. rewrite retype_key. fold k.
+          rewrite Hn' in Hb. simpl in Hb. left. destruct (mem k (live st)); [reflexivity|discriminate]. }
+        { destruct (G _ Hu Hn'); auto. }
+      * apply Hq_map; auto. eapply Hq_good_incl; eauto.
+      * exact I'.
+  - (* nothing in flight for this key: push *)
+    assert (Hknot : ~ In k (qkeys (q st))).
+    { intros Hc. apply A2 in Hc. congruence. }
+    set (u1 := retype (live st) u).
+    assert (K1 : u_key u1 = k) by apply retype_key.
+    assert (Hqk : qkeys (q st ++ [IUpd u1]) = qkeys (q st) ++ [k]).
+    { rewrite qkeys_app. simpl. rewrite K1. reflexivity. }
+    constructor; cbn [q pend live ns mrs].
+    + rewrite Hqk. apply NoDup_snoc; auto.
+    + intros j. rewrite Hqk, mem_In, in_app_iff. simpl. rewrite <- A2, mem_In. intuition.
+    + exact B.
+    + intros u' Hu. apply in_app_iff in Hu. destruct Hu as [Hu|[Hu|[]]].
+      * rewrite Hoth; auto. intros Hc. apply Hknot. rewrite <- Hc. auto.
+      * inversion Hu; subst u'. rewrite K1. unfold u1. rewrite retype_val. congruence.
+    + intros j Hj. rewrite Hqk, in_app_iff in Hj. simpl in Hj.
+      assert (j <> k) by (intros ->; tauto).
+      destruct (D j) as [Hd|Hd]; [tauto | left; rewrite Hoth; auto | right; apply Dns; auto].
+    + intros l' j Hl Hj. destruct (Ens _ _ Hl Hj) as [Hne [l [Hl0 Hj0]]].
+      destruct (E _ _ Hl0 Hj0) as [E1 [E2 E3]]. split; [exact E1|]. split.
+      * rewrite Hqk, in_app_iff. simpl. intuition.
+      * rewrite Hoth; auto.
+    + intros u' v Hu Hv. apply in_app_iff in Hu. destruct Hu as [Hu|[Hu|[]]]; [eauto|].
+      inversion Hu; subst u'. unfold u1 in *. rewrite retype_val in Hv. rewrite retype_key.
+      eapply retype_type; eauto.
+    + intros u' Hu Hn'. apply in_app_iff in Hu. destruct Hu as [Hu|[Hu|[]]].
+      * destruct (G _ Hu Hn'); auto.
+      * inversion Hu; subst u'. unfold u1 in *. rewrite retype_val in Hn'. rewrite retype_key. fold k.
+        destruct (mem k (live st)) eqn:Hl; [left; reflexivity|right]. apply Hi2; auto.
+    + apply Hq_snoc_upd. eapply Hq_good_incl; eauto.
+    + exact I'.
+Qed.
+
+(* ------------------------------------------------------------------ restart *)
+Lemma inv_on_restart : forall st sv uv snt il,
+  Inv st sv uv snt il -> Inv (on_restart st) sv vempty [] [].
+Proof.
+  intros st sv uv snt il [A1 A2 B C D E F G H I].
+  constructor; simpl.
+  - constructor.
+  - intros k; split; [discriminate | intros []].
+  - exact B.
+  - simpl; tauto.
+  - intros k _. unfold vempty. destruct (sv k) eqn:Es; [right|left; reflexivity].
+    eexists; split; [reflexivity|]. apply mem_In. apply B. congruence.
+  - intros l k Hl Hk. inversion Hl; subst. split; [apply mem_In; exact Hk|]. split; [simpl; tauto|reflexivity].
+  - simpl; tauto.
+  - simpl; tauto.
+  - exact Logic.I.
+  - unfold vempty; intros; discriminate.
+Qed.
+
+(* ------------------------------------------------------------------ the consumer *)
+Definition item_ok (snt : list (key * val)) (il : list key) (sv : view) (it : item) : Prop :=
+  match it with
+  | IUpd u =>
+      match u_val u with
+      | Some _ => u_type u = match sv (u_key u) with None => UTNew | Some _ => UTUpdated end
+      | None => sv (u_key u) <> None \/ In (u_key u) il
+      end
+  | IStatus InSync => forall k, good snt sv k
+  | IStatus _ => True
+  end.
+
+Fixpoint items_ok (snt : list (key * val)) (il : list key) (sv : view) (its : list item) : Prop :=
+  match its with
+  | [] => True
+  | it :: r => item_ok snt il sv it /\ items_ok snt il (apply_item sv it) r
+  end.
+
+Lemma inv_pop : forall st sv uv snt il it rest,
+  Inv st sv uv snt il -> q st = it :: rest ->
+  item_ok snt il sv it /\ Inv (pop_effect it rest st) (apply_item sv it) uv snt il.
+Proof.
+  intros st sv uv snt il it rest [A1 A2 B C D E F G H I] Hq0.
+  rewrite Hq0 in *.
+  destruct it as [u|s].
+  - (* an update *)
+    set (k := u_key u) in *.
+    destruct (NoDup_qkeys_head _ _ A1) as [Hk Hnd]. fold k in Hk.
+    assert (Hin : In (IUpd u) (IUpd u :: rest)) by (left; reflexivity).
+    assert (Hcu : u_val u = uv k) by (apply (C u Hin)).
+    assert (Hrest : forall u', In (IUpd u') rest -> u_key u' <> k).
+    { intros u' Hu Hc. apply Hk. apply In_qkeys. eauto. }
+    split.
+    + unfold item_ok. fold k. destruct (u_val u) as [v|] eqn:Ev.
+      * rewrite (F u v Hin Ev). fold k. destruct (sv k) eqn:Es.
+        { assert (Hm : mem k (live st) = true) by (apply B; congruence). rewrite Hm. reflexivity. }
+        { destruct (mem k (live st)) eqn:Hm; [|reflexivity]. apply B in Hm. congruence. }
+      * destruct (G u Hin Ev) as [Hm|Hm]; [left; apply B; exact Hm | right; exact Hm].
+    + assert (Hsv' : forall j, j <> k -> apply_item sv (IUpd u) j = sv j).
+      { intros j Hne. simpl. apply vupd_other. exact Hne. }
+      assert (Hsvk : apply_item sv (IUpd u) k = u_val u).
+      { simpl. apply vupd_same. }
+      assert (Hlive : forall j, j <> k ->
+                mem j (match u_val u with None => discard k (live st) | Some _ => add k (live st) end)
+                = mem j (live st)).
+      { intros j Hne. destruct (mem j (live st)) eqn:Hm.
+        - apply mem_In. apply mem_In in Hm. destruct (u_val u); [apply In_add; auto | apply In_discard; auto].
+        - apply mem_false. apply mem_false in Hm. intros Hc. apply Hm.
+          destruct (u_val u); [apply In_add in Hc; destruct Hc; [congruence|auto] | apply In_discard in Hc; tauto]. }
+      constructor; cbn [pop_effect q pend live ns mrs]; fold k.
+      * exact Hnd.
+      * intros j. rewrite mem_In, In_discard, <- mem_In, A2. simpl. fold k.
+        split; [intros [[Hj|Hj] Hne]; [congruence|exact Hj] | intros Hj; split; [auto|]; intros ->; tauto].
+      * intros j. destruct (N.eq_dec j k) as [->|Hne].
+        { rewrite Hsvk. destruct (u_val u) eqn:Ev.
+          - split; [discriminate|]. intros _. apply mem_In. apply In_add. auto.
+          - split; [|congruence]. intros Hm. apply mem_In in Hm. apply In_discard in Hm. tauto. }
+        { rewrite Hlive, Hsv'; auto. }
+      * intros u' Hu. apply C. right; exact Hu.
+      * intros j Hj. destruct (N.eq_dec j k) as [->|Hne].
+        { left. rewrite Hsvk. exact Hcu. }
+        { rewrite Hsv'; auto. apply D. simpl. fold k. intros [Hc|Hc]; [congruence|tauto]. }
+      * intros l j Hl Hj. destruct (E l j Hl Hj) as [E1 [E2 E3]].
+        assert (Hne : j <> k). { intros ->. apply E2. simpl. left; reflexivity. }
+        split; [rewrite Hlive; auto|]. split; [|exact E3]. intros Hc. apply E2. simpl. right; exact Hc.
+      * intros u' v Hu Hv. rewrite Hlive; [|apply Hrest; exact Hu]. apply (F u' v); [right; exact Hu|exact Hv].
+      * intros u' Hu Hv. rewrite Hlive; [|apply Hrest; exact Hu]. apply (G u'); [right; exact Hu|exact Hv].
+      * simpl in H. fold k in H. eapply Hq_mono; [|exact H].
+        intros j [[<-|[]]|Hg].
+        { right. unfold good. rewrite Hsvk. destruct (u_val u) as [v|] eqn:Ev; [|exact Logic.I].
+          apply I. congruence. }
+        { right. unfold good in *. destruct (N.eq_dec j k) as [->|Hne].
+          - rewrite Hsvk. destruct (u_val u) as [v|] eqn:Ev; [|exact Logic.I].
+            apply I. congruence.
+          - rewrite Hsv'; auto. }
+      * exact I.
+  - (* a status *)
+    split.
+    + simpl. destruct s; try exact Logic.I. simpl in H. destruct H as [H1 _].
+      intros k. destruct (H1 eq_refl k) as [[]|Hg]. exact Hg.
+    + simpl in H. destruct H as [_ H2].
+      constructor; cbn [pop_effect q pend live ns mrs apply_item]; auto.
+      * intros u Hu. apply C. right; exact Hu.
+      * intros u v Hu. apply F. right; exact Hu.
+      * intros u Hu. apply G. right; exact Hu.
+Qed.
+
+Lemma inv_pull : forall n st sv uv snt il its st',
+  Inv st sv uv snt il -> pull n st = (its, st') ->
+  items_ok snt il sv its /\ Inv st' (sink_from sv its) uv snt il.
+Proof.
+  induction n as [|n IH]; intros st sv uv snt il its st' HI Hp; simpl in Hp.
+  - inversion Hp; subst. simpl. auto.
+  - destruct (q st) as [|it rest] eqn:Hq0.
+    + inversion Hp; subst. simpl. auto.
+    + destruct (pull n (pop_effect it rest st)) as [its0 st0] eqn:Hp0.
+      inversion Hp; subst.
+      destruct (inv_pop _ _ _ _ _ _ _ HI Hq0) as [Hok HI'].
+      destruct (IH _ _ _ _ _ _ _ HI' Hp0) as [Hoks HI''].
+      split; [simpl; auto|]. exact HI''.
+Qed.
+
+(* ------------------------------------------------------------------ status / in-sync after reconnection *)
+Lemma queue_update_set_ns : forall st x u,
+  queue_update (set_ns st x) u = set_ns (queue_update st u) x.
+Proof.
+  intros. unfold queue_update, set_ns. cbn [q pend live ns mrs].
+  destruct (mem (u_key u) (pend st)); [destruct (is_none _ && _)|]; reflexivity.
+Qed.
+
+Lemma discard_notin : forall k l, ~ In k l -> discard k l = l.
+Proof.
+  induction l; simpl; intros H; auto.
+  destruct (N.eqb a k) eqn:E.
+  - apply N.eqb_eq in E. subst. tauto.
+  - simpl. f_equal. apply IHl. tauto.
+Qed.
+
+Lemma inv_synth_delete : forall st sv uv snt il k ks,
+  Inv (set_ns st (Some (k :: ks))) sv uv snt il -> ~ In k ks ->
+  Inv (set_ns (queue_update st (del_update k)) (Some ks)) sv uv snt il.
+Proof.
+  intros st sv uv snt il k ks HI Hn.
+  pose proof (iE _ _ _ _ _ HI (k :: ks) k eq_refl (or_introl eq_refl)) as [E1 [E2 E3]].
+  cbn [set_ns live q] in E1, E2.
+  assert (Hstep : on_update1 (set_ns st (Some (k :: ks))) (del_update k)
+                  = set_ns (queue_update st (del_update k)) (Some ks)).
+  { unfold on_update1. cbn [ns set_ns option_map del_update u_key].
+    assert (Hd : discard k (k :: ks) = ks).
+    { simpl. rewrite N.eqb_refl. simpl. apply discard_notin. exact Hn. }
+    rewrite Hd. rewrite <- queue_update_set_ns. reflexivity. }
+  rewrite <- Hstep.
+  eapply inv_on_update1; try exact HI.
+  - intros j. simpl. unfold vupd. destruct (N.eqb j k) eqn:Ej; [|reflexivity].
+    apply N.eqb_eq in Ej. subst. exact E3.
+  - apply incl_refl.
+  - simpl. intros; discriminate.
+  - apply incl_refl.
+  - simpl. intros _ Hm. cbn [set_ns live] in Hm. congruence.
+Qed.
+
+Lemma inv_synth_loop : forall ks st sv uv snt il,
+  NoDup ks -> Inv (set_ns st (Some ks)) sv uv snt il ->
+  Inv (set_ns (fold_left (fun s k => queue_update s (del_update k)) ks st) (Some [])) sv uv snt il.
+Proof.
+  induction ks as [|k ks IH]; intros st sv uv snt il Hnd HI; simpl.
+  - exact HI.
+  - inversion Hnd; subst. apply IH; auto. apply inv_synth_delete; auto.
+Qed.
+
+Lemma inv_ns_equiv : forall st sv uv snt il l l',
+  Inv st sv uv snt il -> ns st = Some l -> (forall x, In x l' <-> In x l) ->
+  Inv (set_ns st (Some l')) sv uv snt il.
+Proof.
+  intros st sv uv snt il l l' [A1 A2 B C D E F G H I] Hl Heq.
+  constructor; cbn [set_ns q pend live ns mrs]; auto.
+  - intros k Hk. destruct (D k Hk) as [Hd|[l0 [Hl0 Hk0]]]; [left; exact Hd|right].
+    exists l'. split; [reflexivity|]. apply Heq. congruence.
+  - intros l0 k Hl0 Hk. inversion Hl0; subst. apply (E l k Hl). apply Heq. exact Hk.
+Qed.
+
+Lemma inv_ns_done : forall st sv uv snt il,
+  Inv (set_ns st (Some [])) sv uv snt il -> Inv (set_ns st None) sv uv snt il.
+Proof.
+  intros st sv uv snt il [A1 A2 B C D E F G H I].
+  cbn [set_ns q pend live ns mrs] in *.
+  constructor; cbn [set_ns q pend live ns mrs]; auto.
+  - intros k Hk. destruct (D k Hk) as [Hd|[l0 [Hl0 Hk0]]]; [left; exact Hd|].
+    inversion Hl0; subst. destruct Hk0.
+  - intros; discriminate.
+Qed.
+
+Lemma inv_on_insync : forall st sv uv snt il ord l,
+  Inv st sv uv snt il -> ns st = Some l -> Inv (on_insync ord l st) sv uv snt il.
+Proof.
+  intros. unfold on_insync. apply inv_ns_done. apply inv_synth_loop.
+  - unfold order. apply NoDup_dedup.
+  - eapply inv_ns_equiv; eauto. intros x. apply In_order.
+Qed.
+
+Lemma ns_on_insync : forall ord l st, ns (on_insync ord l st) = None.
+Proof. reflexivity. Qed.
+
+Lemma inv_on_status : forall st sv uv snt il ord s,
+  Inv st sv uv snt il ->
+  Inv (on_status ord s st) sv uv snt il /\
+  (s = InSync -> ns (on_status ord s st) = None) /\
+  (s <> InSync -> ns (on_status ord s st) = ns st).
+Proof.
+  intros st sv uv snt il ord s HI. unfold on_status.
+  set (st1 := match status_eqb s InSync, ns st with
+              | true, Some l => on_insync ord l st
+              | _, _ => st end).
+  assert (H1 : Inv st1 sv uv snt il /\ (s = InSync -> ns st1 = None) /\ (s <> InSync -> ns st1 = ns st)).
+  { unfold st1. destruct s; simpl; try (split; [exact HI|split; [discriminate|reflexivity]]).
+    destruct (ns st) as [l|] eqn:Hl.
+    - split; [apply inv_on_insync; auto|]. split; [reflexivity|congruence].
+    - split; [exact HI|]. split; [intros _; exact Hl|congruence]. }
+  clearbody st1. destruct H1 as [HI1 [Hn1 Hn2]].
+  destruct (status_eqb (mrs st1) s); [auto|].
+  split; [|cbn [ns]; auto].
+  destruct HI1 as [A1 A2 B C D E F G H I].
+  constructor; cbn [q pend live ns mrs]; auto.
+  - rewrite qkeys_push_status. exact A1.
+  - intros k. rewrite qkeys_push_status. apply A2.
+  - intros u Hu. apply In_push_status in Hu. auto.
+  - intros k. rewrite qkeys_push_status. apply D.
+  - intros l k. rewrite qkeys_push_status. apply E.
+  - intros u v Hu. apply In_push_status in Hu. eauto.
+  - intros u Hu. apply In_push_status in Hu. auto.
+  - apply Hq_push_status; [exact H|]. intros Hs k. rewrite app_nil_r.
+    destruct (in_dec N.eq_dec k (qkeys (q st1))) as [Hi|Hi]; [left; exact Hi|right].
+    destruct (D k Hi) as [Hd|[l [Hl _]]].
+    + unfold good. destruct (sv k) eqn:Es; [|exact Logic.I]. apply I. congruence.
+    + rewrite (Hn1 Hs) in Hl. discriminate.
+Qed.
+
+(* ------------------------------------------------------------------ a batch of upstream updates *)
+Lemma fst_ill_update : forall us acc,
+  fst (fold_left ill_update us acc) = fold_left apply_update us (fst acc).
+Proof. induction us; simpl; intros; auto. rewrite IHus. reflexivity. Qed.
+
+Lemma inv_on_updates : forall us st sv uv snt il,
+  Inv st sv uv snt il ->
+  Inv (on_updates st us) sv (fold_left apply_update us uv) (fold_left sent_update us snt)
+      (snd (fold_left ill_update us (uv, il))).
+Proof.
+  unfold on_updates. induction us as [|u us IH]; intros st sv uv snt il HI; simpl; [exact HI|].
+  apply IH. 
+  eapply inv_on_update1; try exact HI.
+  - intros j. reflexivity.
+  - unfold sent_update. destruct (u_val u); [apply incl_tl|]; apply incl_refl.
+  - intros v Hv. unfold sent_update. rewrite Hv. left; reflexivity.
+  - simpl. destruct (u_val u); [apply incl_refl|]. destruct (uv (u_key u)); [apply incl_refl|apply incl_tl; apply incl_refl].
+  - intros Hv Hm Hk. simpl. rewrite Hv.
+    destruct (uv (u_key u)) eqn:Eu; [|left; reflexivity]. exfalso.
+    destruct (iD _ _ _ _ _ HI _ Hk) as [Hd|[l [Hl Hkl]]].
+    + assert (mem (u_key u) (live st) = true) by (apply (iB _ _ _ _ _ HI); congruence). congruence.
+    + destruct (iE _ _ _ _ _ HI _ _ Hl Hkl) as [E1 _]. congruence.
+Qed.
+
+(* ------------------------------------------------------------------ whole histories *)
+Lemma run_snoc : forall ops o, run (ops ++ [o]) = run_step (run ops) o.
+Proof. intros. unfold run. rewrite fold_left_app. reflexivity. Qed.
+Lemma upstream_snoc : forall ops o, upstream_view (ops ++ [o]) = upstream_step (upstream_view ops) o.
+Proof. intros. unfold upstream_view. rewrite fold_left_app. reflexivity. Qed.
+Lemma sent_snoc : forall ops o, sent (ops ++ [o]) = sent_step (sent ops) o.
+Proof. intros. unfold sent. rewrite fold_left_app. reflexivity. Qed.
+Lemma resync_snoc : forall ops o, resync_pending (ops ++ [o]) = resync_step (resync_pending ops) o.
+Proof. intros. unfold resync_pending. rewrite fold_left_app. reflexivity. Qed.
+
+Definition ill_acc (ops : list op) : view * list key := fold_left ill_step ops (vempty, []).
+Lemma ill_acc_snoc : forall ops o, ill_acc (ops ++ [o]) = ill_step (ill_acc ops) o.
+Proof. intros. unfold ill_acc. rewrite fold_left_app. reflexivity. Qed.
+Lemma fst_ill_acc : forall ops, fst (ill_acc ops) = upstream_view ops.
+Proof.
+  induction ops as [|o ops IH] using rev_ind; [reflexivity|].
+  rewrite ill_acc_snoc, upstream_snoc. destruct o; simpl; auto.
+  rewrite fst_ill_update, IH. reflexivity.
+Qed.
+
+Lemma sink_from_app : forall sv a b, sink_from sv (a ++ b) = sink_from (sink_from sv a) b.
+Proof. intros. unfold sink_from. apply fold_left_app. Qed.
+
+Lemma ns_queue_update : forall st u, ns (queue_update st u) = ns st.
+Proof.
+  intros. unfold queue_update. destruct (mem _ _); [destruct (_ && _)|]; reflexivity.
+Qed.
+Lemma ns_on_updates : forall us st, ns (on_updates st us) = None <-> ns st = None.
+Proof.
+  unfold on_updates. induction us as [|u us IH]; intros st; simpl; [tauto|].
+  rewrite IH. unfold on_update1. rewrite ns_queue_update. cbn [set_ns ns].
+  destruct (ns st); simpl; split; congruence.
+Qed.
+Lemma ns_pull : forall n st its st', pull n st = (its, st') -> ns st' = ns st.
+Proof.
+  induction n as [|n IH]; intros st its st' Hp; simpl in Hp.
+  - inversion Hp; reflexivity.
+  - destruct (q st) as [|it rest]; [inversion Hp; reflexivity|].
+    destruct (pull n (pop_effect it rest st)) as [its0 st0] eqn:Hp0. inversion Hp; subst.
+    rewrite (IH _ _ _ Hp0). destruct it; reflexivity.
+Qed.
+
+(* typing of upserts over the whole delivered stream *)
+Fixpoint types_ok (sv : view) (its : list item) : Prop :=
+  match its with
+  | [] => True
+  | it :: r =>
+      match it with
+      | IUpd u => match u_val u with
+                  | Some _ => u_type u = match sv (u_key u) with None => UTNew | Some _ => UTUpdated end
+                  | None => True
+                  end
+      | IStatus _ => True
+      end /\ types_ok (apply_item sv it) r
+  end.
+
+Lemma types_ok_app : forall a sv b, types_ok sv a -> types_ok (sink_from sv a) b -> types_ok sv (a ++ b).
+Proof.
+  induction a as [|it a IH]; simpl; intros sv b Ha Hb; [exact Hb|].
+  destruct Ha as [H1 H2]. split; [exact H1|]. apply IH; auto.
+Qed.
+
+Lemma items_ok_types : forall its snt il sv, items_ok snt il sv its -> types_ok sv its.
+Proof.
+  induction its as [|it its IH]; simpl; intros snt il sv H; [exact Logic.I|].
+  destruct H as [H1 H2]. split; [|eapply IH; eauto].
+  destruct it as [u|s]; [|exact Logic.I]. simpl in H1. destruct (u_val u); [exact H1|exact Logic.I].
+Qed.
+
+Lemma items_ok_split : forall pre snt il sv it post,
+  items_ok snt il sv (pre ++ it :: post) -> item_ok snt il (sink_from sv pre) it.
+Proof.
+  induction pre as [|x pre IH]; simpl; intros snt il sv it post H.
+  - tauto.
+  - destruct H as [_ H]. apply IH in H. exact H.
+Qed.
+
+Lemma types_ok_split : forall pre sv u post v,
+  types_ok sv (pre ++ IUpd u :: post) -> u_val u = Some v ->
+  u_type u = match sink_from sv pre (u_key u) with None => UTNew | Some _ => UTUpdated end.
+Proof.
+  induction pre as [|x pre IH]; simpl; intros sv u post v H Hv.
+  - destruct H as [H _]. rewrite Hv in H. exact H.
+  - destruct H as [_ H]. eapply IH; eauto.
+Qed.
+
+Theorem inv_run : forall ops,
+  Inv (fst (run ops)) (sink_view (snd (run ops))) (upstream_view ops) (sent ops) (ill ops)
+  /\ (ns (fst (run ops)) = None <-> resync_pending ops = false)
+  /\ types_ok vempty (snd (run ops)).
+Proof.
+  induction ops as [|o ops IH] using rev_ind.
+  - split; [exact inv_init|]. split; [simpl; tauto|exact Logic.I].
+  - destruct IH as [HI [Hns Hty]].
+    unfold ill in *. fold (ill_acc ops) in HI. fold (ill_acc (ops ++ [o])).
+    rewrite run_snoc, upstream_snoc, sent_snoc, resync_snoc, ill_acc_snoc.
+    destruct (run ops) as [st evs] eqn:Hrun. cbn [fst snd] in *.
+    destruct o as [|s ord|us|n]; unfold run_step; cbn [step fst snd].
+    + (* restart *)
+      rewrite app_nil_r. cbn [fst snd upstream_step sent_step ill_step resync_step].
+      split; [eapply inv_on_restart; exact HI|]. split; [simpl; split; discriminate|exact Hty].
+    + (* status *)
+      rewrite app_nil_r. cbn [fst snd upstream_step sent_step ill_step].
+      destruct (inv_on_status _ _ _ _ _ ord s HI) as [HI' [Hn1 Hn2]].
+      split; [exact HI'|]. split; [|exact Hty].
+      destruct s; simpl resync_step.
+      * rewrite Hn2 by discriminate. exact Hns.
+      * rewrite Hn2 by discriminate. exact Hns.
+      * rewrite Hn1 by reflexivity. tauto.
+    + (* updates *)
+      rewrite app_nil_r. cbn [fst snd upstream_step sent_step ill_step resync_step].
+      pose proof (fst_ill_acc ops) as Hf.
+      destruct (ill_acc ops) as [v0 l0] eqn:Hacc. cbn [fst snd] in *. subst v0.
+      split; [apply inv_on_updates; exact HI|]. split; [|exact Hty].
+      rewrite ns_on_updates. exact Hns.
+    + (* pull *)
+      destruct (pull n st) as [its st'] eqn:Hp. cbn [fst snd upstream_step sent_step ill_step resync_step].
+      destruct (inv_pull _ _ _ _ _ _ _ _ HI Hp) as [Hok HI'].
+      unfold sink_view in *. rewrite sink_from_app.
+      split; [exact HI'|]. split.
+      * rewrite (ns_pull _ _ _ _ Hp). exact Hns.
+      * apply types_ok_app; [exact Hty|]. eapply items_ok_types; eauto.
+Qed.
+
+(* ------------------------------------------------------------------ the property *)
+Lemma converges : forall ops,
+  resync_pending ops = false -> q (fst (run ops)) = [] ->
+  forall k, sink_view (snd (run ops)) k = upstream_view ops k.
+Proof.
+  intros ops Hr Hq0 k. destruct (inv_run ops) as [HI [Hns _]].
+  destruct (iD _ _ _ _ _ HI k) as [Hd|[l [Hl _]]].
+  - rewrite Hq0. simpl. tauto.
+  - exact Hd.
+  - apply Hns in Hr. congruence.
+Qed.
+
+Lemma missing_deleted : forall ops k,
+  resync_pending ops = false -> q (fst (run ops)) = [] ->
+  upstream_view ops k = None -> sink_view (snd (run ops)) k = None.
+Proof. intros ops k H1 H2 H3. rewrite <- H3. exact (converges ops H1 H2 k). Qed.
+
+Lemma unchanged_kept : forall ops k v,
+  resync_pending ops = false -> q (fst (run ops)) = [] ->
+  upstream_view ops k = Some v -> sink_view (snd (run ops)) k = Some v.
+Proof. intros ops k v H1 H2 H3. rewrite <- H3. exact (converges ops H1 H2 k). Qed.
+
+Fixpoint no_restart (ops : list op) : bool :=
+  match ops with
+  | [] => true
+  | OpRestart :: _ => false
+  | _ :: r => no_restart r
+  end.
+
+Lemma resync_false_stays : forall post, no_restart post = true -> fold_left resync_step post false = false.
+Proof.
+  induction post as [|o post IH]; simpl; intros H; [reflexivity|].
+  destruct o as [|s ord| |]; try discriminate; simpl; auto. destruct s; auto.
+Qed.
+
+Lemma resync_after_insync : forall pre ord post,
+  no_restart post = true -> resync_pending (pre ++ OpStatus InSync ord :: post) = false.
+Proof.
+  intros. unfold resync_pending. rewrite fold_left_app. simpl. apply resync_false_stays. exact H.
+Qed.
+
+Lemma converges_after_insync : forall pre ord post,
+  no_restart post = true ->
+  let ops := pre ++ OpStatus InSync ord :: post in
+  q (fst (run ops)) = [] ->
+  forall k, sink_view (snd (run ops)) k = upstream_view ops k.
+Proof. intros. apply converges; auto. apply resync_after_insync; auto. Qed.
+
+Lemma new_vs_updated_stream : forall ops pre u v post,
+  snd (run ops) = pre ++ IUpd u :: post -> u_val u = Some v ->
+  (u_type u = UTNew <-> sink_view pre (u_key u) = None) /\
+  (u_type u = UTUpdated <-> sink_view pre (u_key u) <> None).
+Proof.
+  intros ops pre u v post He Hv. destruct (inv_run ops) as [_ [_ Hty]].
+  rewrite He in Hty. pose proof (types_ok_split _ _ _ _ _ Hty Hv) as Ht.
+  unfold sink_view. rewrite Ht. destruct (sink_from vempty pre (u_key u)); split; split; congruence.
+Qed.
+
+Lemma pulled_item_ok : forall ops n its st' pre it post,
+  pull n (fst (run ops)) = (its, st') -> its = pre ++ it :: post ->
+  item_ok (sent ops) (ill ops) (sink_view (snd (run ops) ++ pre)) it.
+Proof.
+  intros ops n its st' pre it post Hp He. destruct (inv_run ops) as [HI _].
+  destruct (inv_pull _ _ _ _ _ _ _ _ HI Hp) as [Hok _]. subst its.
+  unfold sink_view. rewrite sink_from_app. eapply items_ok_split; eauto.
+Qed.
+
+Lemma deletes_only_held : forall ops n its st' pre u post,
+  pull n (fst (run ops)) = (its, st') -> its = pre ++ IUpd u :: post -> u_val u = None ->
+  sink_view (snd (run ops) ++ pre) (u_key u) <> None \/ In (u_key u) (ill ops).
+Proof.
+  intros. pose proof (pulled_item_ok _ _ _ _ _ _ _ H H0) as Hok. simpl in Hok. rewrite H1 in Hok. exact Hok.
+Qed.
+
+Lemma nothing_stale_at_insync : forall ops n its st' pre post,
+  pull n (fst (run ops)) = (its, st') -> its = pre ++ IStatus InSync :: post ->
+  forall k v, sink_view (snd (run ops) ++ pre) k = Some v -> In (k, v) (sent ops).
+Proof.
+  intros ops n its st' pre post Hp He k v Hk.
+  pose proof (pulled_item_ok _ _ _ _ _ _ _ Hp He) as Hok. simpl in Hok.
+  specialize (Hok k). unfold good in Hok. rewrite Hk in Hok. exact Hok.
+Qed.
+
+(* keyToPendingUpdate mirrors the queue: the dedupe never leaves two updates for one key in flight *)
+Lemma queue_deduped : forall ops,
+  NoDup (qkeys (q (fst (run ops)))) /\
+  forall k, mem k (pend (fst (run ops))) = true <-> In k (qkeys (q (fst (run ops)))).
+Proof. intros. destruct (inv_run ops) as [HI _]. split; [apply (iA1 _ _ _ _ _ HI)|apply (iA2 _ _ _ _ _ HI)]. Qed.
+
+Lemma live_is_sink_domain : forall ops k,
+  mem k (live (fst (run ops))) = true <-> sink_view (snd (run ops)) k <> None.
+Proof. intros. destruct (inv_run ops) as [HI _]. apply (iB _ _ _ _ _ HI). Qed.
+
+(* ------------------------------------------------------------------ the hypotheses are satisfiable *)
+(* two resources delivered, connection restarts, the new connection re-sends k1 with a new value and does
+   not have k2 any more, reports in-sync, consumer drains *)
+Definition ex_ops : list op :=
+  [OpUpdates [US 1 1 UTNew; US 2 1 UTNew]; OpStatus InSync []; OpPull 10;
+   OpRestart; OpStatus WaitForDatastore []; OpUpdates [US 1 2 UTNew; DL 3 UTDeleted]; OpStatus InSync [];
+   OpPull 1; OpPull 10].
+
+Example ex_converges_hyps :
+  resync_pending ex_ops = false /\ q (fst (run ex_ops)) = [] /\
+  snd (run ex_ops) =
+    [IUpd (US 1 1 UTNew); IUpd (US 2 1 UTNew); IStatus InSync;
+     IStatus WaitForDatastore; IUpd (US 1 2 UTUpdated); IUpd (DL 3 UTDeleted); IUpd (DL 2 UTDeleted); IStatus InSync] /\
+  sink_view (snd (run ex_ops)) 1 = Some 2 /\ sink_view (snd (run ex_ops)) 2 = None /\
+  ill ex_ops = [3] /\ sent ex_ops = [(1, 2)].
+Proof. vm_compute. repeat split; reflexivity. Qed.
+
+(* a pull that delivers the in-sync of the new connection, with the synthesized deletion ahead of it *)
+Example ex_insync_pull :
+  let ops := firstn 8 ex_ops in
+  fst (pull 10 (fst (run ops))) =
+    [IUpd (US 1 2 UTUpdated); IUpd (DL 3 UTDeleted); IUpd (DL 2 UTDeleted); IStatus InSync].
+Proof. vm_compute. reflexivity. Qed.
